@@ -302,6 +302,10 @@ var c18CrossDocs = []string{
 	`query ($v: Int = 1) { any { ... on Priced { cost(x: $v) } ... on Billed { cost(x: $v) } } }`,
 	`{ any { ... on Priced { cost(x: 1.0) } ... on Billed { cost(x: 1) } } }`,
 	`{ thing { cost(x: 1) ... on Priced { cost(x: 1) } } }`,
+	// one field name with other argument sets on two types, the same arguments given to both (in either order)
+	`{ thing { items(first: 1, after: "x") } bill { items(first: 1, after: "x") } }`,
+	`{ bill { items(first: 1, after: "x") } thing { items(first: 1, after: "x") } }`,
+	`{ bill { items(last: 1) } thing { items(last: 1) } any { ... on Thing { items(last: 2) } ... on Bill { i: items(last: 2, after: "y") } } }`,
 }
 
 func c18LargeDocs() []string {
